@@ -9,6 +9,7 @@ import (
 	. "github.com/frankkopp/FrankyGo/internal/types"
 
 	"github.com/frankkopp/FrankyGo/verif/refchess"
+	"github.com/frankkopp/FrankyGo/verif/space"
 	"github.com/frankkopp/FrankyGo/verif/vl"
 )
 
@@ -144,6 +145,8 @@ func c05(tier string, args []string) int {
 			fens = append(fens, f)
 		}
 	}
+	fens = append(fens, stalemateTraps(0)...)
+	fens = append(fens, space.EpEvasionRoots([]int8{space.R}, 2)...)
 	for _, f := range drawCases(append([]string{}, fens...), drawStep, true) {
 		if r, _, err := caseRef(f); err == nil && len(r.LegalMoves()) > 0 {
 			fens = append(fens, f)
